@@ -50,6 +50,8 @@ fn spawn_child(
     if pid == 0 {
         // child
         unsafe {
+            // never outlive the check process
+            libc::prctl(libc::PR_SET_PDEATHSIG, libc::SIGKILL);
             let lim = libc::rlimit {
                 rlim_cur: 12 << 30,
                 rlim_max: 12 << 30,
@@ -157,12 +159,17 @@ pub fn run_pool(
     let _ = std::fs::remove_dir_all(&root);
     std::fs::create_dir_all(&root).expect("create shm root");
     let start = Instant::now();
-    let per_run_limit = 240.0;
+    let per_run_limit = 150.0;
+    let mut violations_seen = 0u32;
     let mut next = 0u64;
     let mut live: BTreeMap<i32, Child> = BTreeMap::new();
     let mut out: Vec<RunResult> = Vec::new();
     let mut capped = false;
     loop {
+        if violations_seen >= 60 && (violations_seen as usize) * 10 > out.len() && !capped {
+            capped = true;
+            eprintln!("note: {violations_seen} runs violated the property; not starting further runs");
+        }
         while live.len() < jobs && next < runs && !capped {
             if start.elapsed().as_secs_f64() > wall_cap {
                 capped = true;
@@ -183,7 +190,11 @@ pub fn run_pool(
         let pid = unsafe { libc::waitpid(-1, &mut status, libc::WNOHANG) };
         if pid > 0 {
             if let Some(c) = live.remove(&pid) {
-                out.push(collect(prop, tier, &c, status, false));
+                let r = collect(prop, tier, &c, status, false);
+                if r.outcome == "violation" {
+                    violations_seen += 1;
+                }
+                out.push(r);
             }
         } else {
             // nobody finished: check time limits, then nap
@@ -198,6 +209,7 @@ pub fn run_pool(
                     let mut st = 0;
                     libc::waitpid(p, &mut st, 0);
                     if let Some(c) = live.remove(&p) {
+                        violations_seen += 1;
                         out.push(collect(prop, tier, &c, st, true));
                     }
                 }
